@@ -185,8 +185,10 @@ func (n *GeneratorInterceptor) loop(rtcpWriter interceptor.RTCPWriter) {
 						if n.nackCountLogs[ssrc][missingSeq] < n.maxNacksPerPacket {
 							filteredMissingPacket[count] = missingSeq
 							count++
+							// only count up to the limit: a 16 bit counter incremented on
+							// every tick wraps and the packet would be requested again
+							n.nackCountLogs[ssrc][missingSeq]++
 						}
-						n.nackCountLogs[ssrc][missingSeq]++
 					}
 
 					if count == 0 {
